@@ -7,6 +7,7 @@
 //!   oracle: kind max_age max_conf price conf expo ema_price ema_conf publish_time
 //!           kind 0 = keep the Fixed price of the bank line (other fields ignored), 1 = Pyth push
 //!   extra ops: 20 b price conf ema_price ema_conf publish_time   rewrite bank b's Pyth account
+//!              23 b tag     set bank b's asset tag (fixture: 3 Kamino, 4 Drift, 5 Solend - a venue bank that already holds positions)
 //!              22 b state   set bank b's operational state (0 paused, 1 operational, 2 reduce-only, 3 killed)
 //!              21 b mode    mode 1: from now on present a different (decoy) Pyth account in place of
 //!                           bank b's oracle; mode 0: present the right one
@@ -353,6 +354,13 @@ fn run_inner(line: &str) -> String {
                 let b = t.usize();
                 let mode = t.u8();
                 h.bogus[b] = mode == 1;
+                Ok(())
+            }
+            23 => {
+                // fixture: the bank's asset tag (a venue bank that already holds positions)
+                let b = t.usize();
+                let tg = t.u8();
+                h.w.update::<Bank>(&h.banks[b], |bk| bk.config.asset_tag = tg);
                 Ok(())
             }
             22 => {
